@@ -1,6 +1,6 @@
 //! C17: WebP chunk / primitive codecs through the public `webpsan::parse` API.
 use std::io::Write;
-use std::panic::{catch_unwind, AssertUnwindSafe};
+use std::panic::AssertUnwindSafe;
 
 use bytes::BytesMut;
 use webpsan::parse::{
@@ -71,7 +71,7 @@ impl Vals for AlphChunk {
 }
 
 fn chunk_case<T: ParseChunk + ParsedChunk + Vals + PartialEq, W: Write>(out: &mut W, name: &str, bytes: &[u8]) {
-    let r = catch_unwind(AssertUnwindSafe(|| {
+    let r = crate::quiet(AssertUnwindSafe(|| {
         let mut buf = BytesMut::from(bytes);
         match T::parse(&mut buf) {
             Ok(v) => {
@@ -93,7 +93,7 @@ fn chunk_case<T: ParseChunk + ParsedChunk + Vals + PartialEq, W: Write>(out: &mu
 }
 
 fn header_case<W: Write>(out: &mut W, bytes: &[u8]) {
-    let r = catch_unwind(AssertUnwindSafe(|| match ChunkHeader::parse(bytes) {
+    let r = crate::quiet(AssertUnwindSafe(|| match ChunkHeader::parse(bytes) {
         Ok(h) => {
             let mut put = Vec::new();
             h.put_buf(&mut put);
@@ -218,7 +218,6 @@ pub fn replay<W: Write>(line: &str, out: &mut W) {
 }
 
 pub fn run<W: Write>(opts: &Opts, out: &mut W) {
-    std::panic::set_hook(Box::new(|_| {}));
     let mut rng = Rng::new(opts.seed);
     let n = if opts.tier_thorough { 20000 } else { 1500 };
     // exhaustive 8- and 16-bit primitives
